@@ -198,7 +198,7 @@ def check(res, tier, replay=None):
     if prep.bdir and prep.driver_ok:
         r = vcommon.rng("c04")
         n = 400 if tier == "quick" else 6000
-        cases = c0405_lib.transition_matrix() + c0405_lib.directed_oversub()
+        cases = c0405_lib.transition_matrix() + c0405_lib.directed_oversub() + c0405_lib.kernel_cases()
         cases += [gen_history(r, res) for _ in range(n)]
         upto = 5 if tier == "quick" else 8
         cases += exhaustive(upto)
